@@ -31,6 +31,12 @@ Inductive case :=
    the number of the value stored last (every store is healthy), what the getter of the long-lived
    object returned and what the getter of a fresh object returned *)
 | Reads (l : list (N * reading * reading))
+(* stores through a configured path of some file-system shape (a link, a chain of links, a linked
+   directory, "..", a relative path, another working directory ...) in one child process: [prev] = what
+   the getter returned before the first store; per store the number of its value, whether the store
+   reported success (Done) or an error (Failed), and what the getter of the long-lived object and of a
+   fresh object on the same configured path returned afterwards *)
+| Paths (prev : reading) (l : list (N * fate * reading * reading))
 (* a store or read call of the real code (or the child process driving it) did not return within its
    deadline: nothing was read back *)
 | Hung
@@ -89,6 +95,13 @@ Fixpoint hist_agree (s : fs) (prev : reading) (atts : list hatt) : bool :=
       && hist_agree s' mr r
   end.
 
+Fixpoint readings_eqb (a b : list reading) : bool :=
+  match a, b with
+  | [], [] => true
+  | x :: a', y :: b' => reading_eqb x y && readings_eqb a' b'
+  | _, _ => false
+  end.
+
 Definition agree (c : case) : bool :=
   match c with
   | Trace g old tr final =>
@@ -100,6 +113,10 @@ Definition agree (c : case) : bool :=
   | History g old v0 atts => hist_agree (fs0 old) (RVal v0) atts
   (* the model: a getter returns the value whose bytes the last completed store left in the file *)
   | Reads l => reads_ok (map (fun x => (fst (fst x), snd (fst x))) l) && reads_ok (map (fun x => (fst (fst x), snd x)) l)
+  (* the abstract store: success installs the value, an error changes nothing *)
+  | Paths prev l =>
+      let m := path_model prev (map (fun x => fst (fst x)) l) in
+      readings_eqb (map (fun x => snd (fst x)) l) m && readings_eqb (map (fun x => snd x) l) m
   (* every operation of the model is a total function: the model never hangs *)
   | Hung => false
   end.
@@ -122,6 +139,8 @@ Definition judge (c : case) : bool :=
   (* every read - through the long-lived object and through a fresh one - returns the value of the last
      completed store (the history specification with all stores Done: C18_reads_judge_is_hist) *)
   | Reads l => reads_ok (map (fun x => (fst (fst x), snd (fst x))) l) && reads_ok (map (fun x => (fst (fst x), snd x)) l)
+  (* C18_paths_judge_sound, C18_paths_done_reads *)
+  | Paths prev l => paths_ok prev l
   (* no value was read back: C18_hung_rejected *)
   | Hung => hung_ok
   end.
@@ -135,6 +154,7 @@ Definition tag (c : case) : N :=
   | History _ _ _ atts => if forallb (fun a => fate_eqb (h_fate a) Done) atts then 6 else 7
   | Reads _ => 8
   | Hung => 9
+  | Paths _ l => if forallb (fun x => fate_eqb (snd (fst (fst x))) Done) l then 10 else 11
   end%N.
 
 Definition check_all := check_cases agree judge tag.
